@@ -344,6 +344,8 @@ class C02(Property):
              "gz": rng.chance(0.4), "cfg0": CFG1, "cfg": {"processes": 1, "maxtasksperchunk": rng.choice([0, 0, 1])}}
         huge = rng.chance(0.12)
         size = rng.randint(1100000, 1500000) if huge else rng.choice([66000, 70000, 90000, 131500, 200000, rng.randint(65000, 300000)])
+        if huge and c["gz"]:
+            size *= 2       # the text compresses about 2:1; the gzip member itself shall exceed 1 MiB
         c["big"] = {"pairs": [[rng.below(ne), rng.below(nl)]], "size": size, "rows": rng.choice([1, 1, 2, 3])}
         nrec = 2 + ne + nl + 1 + ne * nl
         c["cuts"] = self.long_cuts(rng, nrec, 2 if huge else 5)
